@@ -86,8 +86,8 @@ def chain_programs(ctx):
         exh = rnd.sample(exh, min(60, len(exh)))
         rand = rnd.sample(rand, min(80, len(rand)))
     else:
-        exh = rnd.sample(exh, min(600, len(exh)))
-        rand = rnd.sample(rand, min(900, len(rand)))
+        exh = rnd.sample(exh, min(350, len(exh)))
+        rand = rnd.sample(rand, min(550, len(rand)))
     out, seen = [], set()
     for i, st in enumerate(CORPUS):
         out.append({"kind": "chain", "steps": st, "corpus": True, "name": f"corpus{i}"})
@@ -223,6 +223,46 @@ def rows_agree(mode, lim, ref, got, pre):
     if mode == "sub":
         return len(got) == min(lim or 0, len(pre)) and is_subbag(got, [norm_row(r) for r in pre])
     return len(ref) == len(got)   # dedup / unknown: the kept representative is the engine's choice
+
+
+def refine_mode(mode, tree, exp):
+    """A LIMIT whose own SELECT does not ORDER BY all of its output columns lets the engine choose the rows (the
+    order of an ordered CTE below it is not promised by SQL and DuckDB does not always keep it): from then on only
+    the row count and the column names can be compared (mode "count"); one such LIMIT as the program's last step
+    keeps checks.c01's "sub" mode (count + sub-multiset of the rows before the limit)."""
+    try:
+        main = tree.copy()
+        main.set("with", None)
+        sels = [c.this for c in tree.ctes] + [main]
+        und = 0
+        for sel in sels:
+            if not isinstance(sel, exp.Select):
+                continue
+            l = sel.args.get("limit")
+            if l is None:
+                continue
+            try:
+                n = int(l.expression.this)
+            except Exception:   # noqa: BLE001
+                n = 1
+            if n == 0 or n >= 50:
+                continue
+            outs = {e.alias_or_name for e in sel.expressions}
+            keys = set()
+            order = sel.args.get("order")
+            if order is not None:
+                for o in order.expressions:
+                    if isinstance(o.this, exp.Column):
+                        keys.add(o.this.name)
+            if not outs <= keys:
+                und += 1
+        if und == 0:
+            return mode
+        if mode == "sub" and und == 1:
+            return "sub"
+        return "count"
+    except Exception:   # noqa: BLE001
+        return "count"
 
 
 def exec_text(conn, text):
@@ -450,6 +490,13 @@ def _worker(args):
                 R["n_collect_raises"] += 1
                 info.setdefault("collect_error", f"{type(ex).__name__}: {str(ex)[:150]}")
                 break
+            primary = tname == "t1"
+            if primary:
+                try:
+                    prog["mode"] = refine_mode(prog["mode"], df._get_expressions(optimize=False)[0], exp)
+                except Exception:   # noqa: BLE001
+                    prog["mode"] = "count"
+                info["mode"] = prog["mode"]
             mode, lim = prog["mode"], prog["lim"]
             pre = []
             if mode == "sub":
@@ -457,7 +504,6 @@ def _worker(args):
                     pre = collect_ref(dfs[-2])[1]
                 except Exception:   # noqa: BLE001
                     pre = []
-            primary = tname == "t1"
             texts, got_main = {}, None
             for cfg in (CFGS if primary else SIDE_CFGS):
                 status, detail, text, got = run_cfg(df, conn, cfg, ref, mode, lim, pre)
@@ -599,7 +645,7 @@ def run(ctx: core.Ctx):
     futs = [pool.submit(_worker, (ctx.seed, ctx.tier, w, NW)) for w in range(NW)]
     # ---- proofs
     deps = ["Base/Val.v", "Base/Expr.v", "Base/Sort.v", "Sql/Block.v", "Sql/Norm.v",
-            "C03/Scoped.v", "C03/Render.v", "C03/Equiv.v", "C03/Check.v"]
+            "C03/Scoped.v", "C03/Render.v", "C03/Subst.v", "C03/Canon.v", "C03/Order.v", "C03/Equiv.v", "C03/Check.v"]
     if t1_ok:
         ctx.prove([ctx.build + "/gen/C03Facts.v", core.COQ + "/props/C03.v"], dep_theories=deps)
     else:
@@ -717,21 +763,24 @@ def run(ctx: core.Ctx):
 
     # ---- Coq: pairs
     res = ctx.cases("c03p", HEADER_PAIR, pair_items, per_file=30, result_ty="str", fn="check")
-    n_model_raw_bad = n_model_opt_bad = 0
+    n_model_raw_bad = n_model_opt_bad = n_engine_order = 0
     model_bad = []
     for it, m, r_ in zip(pair_items, pair_meta, res):
-        if r_ is None or len(r_) != 3:
+        if r_ is None or len(r_) != 5:
             continue
-        cert, mr, mo = (ch == "1" for ch in r_)
+        cert, mr, mo, mrb, mob = (ch == "1" for ch in r_)
         p = m["prog"]
+        p.setdefault("verdict", {})[m["table"]] = r_
         if m["table"] == "t1":
             p["certified"] = cert
-        if not mr:
+        if not mrb:
             n_model_raw_bad += 1
             model_bad.append({"program": p["desc"], "table": m["table"], "which": "raw chain vs collect()", "coq_case": it[:1500]})
-        if not mo:
+        if not mob:
             n_model_opt_bad += 1
             model_bad.append({"program": p["desc"], "table": m["table"], "which": "optimised chain vs optimised text", "coq_case": it[:1500]})
+        if (mrb and not mr) or (mob and not mo):
+            n_engine_order += 1      # same multiset, another order: DuckDB did not keep the order Sql.eval assumes
     chain_progs = [p for p in progs if p["kind"] == "chain"]
     exported = [p for p in chain_progs if p.get("raw_export") and p.get("opt_export")]
     certified = [p for p in chain_progs if p.get("certified")]
@@ -750,7 +799,7 @@ def run(ctx: core.Ctx):
 
     # ---- differential search on extra random tables for pairs that did not certify
     t_search = time.time()
-    extra = random_tables(ctx.seed + 11, 3 if ctx.tier == "quick" else 12)
+    extra = random_tables(ctx.seed + 11, 3 if ctx.tier == "quick" else 6)
     dev_keys = {d["prog"]["idx"] for d in raw_devs if d["cfg"][0]}
     n_search = 0
     for p in undecided:
@@ -883,6 +932,7 @@ def run(ctx: core.Ctx):
 
     n_dev = {"optimize": 0, "unquoted": 0, "raises": 0, "other": 0}
     all_sigs = {}
+    n_order_skipped = 0
 
     def emit(sig, what, base):
         ctx.deviation(sig, what, base)
@@ -929,6 +979,14 @@ def run(ctx: core.Ctx):
                  "sql(optimize=False) does not reproduce collect()", base)
             continue
         # optimize=True
+        if status == "rows-differ" and p["mode"] == "seq" and d["got"] is not None \
+                and canon(d["ref"][1]) == canon(d["got"][1]):
+            # only the ORDER differs: reported only where Coq's evaluation of the raw chain reproduces collect()'s
+            # order (i.e. the engine did keep the order the DataFrame program promises)
+            v = (p.get("verdict") or {}).get(d["table"])
+            if not (v and v[1] == "1"):
+                n_order_skipped += 1
+                continue
         cur = None
         if p["kind"] == "chain":
             steps, cur = shrink(p, d["table"] if rows is None else None, rows)
@@ -998,7 +1056,8 @@ def run(ctx: core.Ctx):
         "uncertified_with_data_witness": len([p for p in undecided if p["idx"] in dev_keys]),
         "search_executions": n_search,
         "pair_evaluations_in_coq": len(pair_items), "model_raw_vs_collect_bad": n_model_raw_bad,
-        "model_opt_vs_text_bad": n_model_opt_bad,
+        "model_opt_vs_text_bad": n_model_opt_bad, "engine_order_differs_from_model": n_engine_order,
+        "order_only_deviations_not_reported": n_order_skipped,
         "scope_steps_checked": len(scope_items),
         "identifier_sets_checked": len(ident_items), "identifier_sets_all_plain": n_unq_pred_ok,
         "lexer_model_probe_plain_words": n_plain, "lexer_model_probe_agree": n_plain_ok,
